@@ -784,6 +784,7 @@ class Patched:
         import ynca.subunit
 
         sim = self.sim
+        patched = self
         th, qu, ti = _ThreadingShim(sim), _QueueShim(sim), _TimeShim(sim)
         for mod in (ynca.connection, ynca.subunit, ynca.api, serial.threaded):
             if hasattr(mod, "threading"):
@@ -935,11 +936,20 @@ class Patched:
 
         def conn_init2(self_, *a, **k):
             conn_init(self_, *a, **k)
-            if type(getattr(self_, "_message_callbacks", None)) is set:  # another container type is left alone
-                ss = SimSet(self_._message_callbacks)
+            if type(self_.__dict__.get("_message_callbacks")) is set:  # another container type is left alone
+                ss = SimSet(self_.__dict__["_message_callbacks"])
                 ss._sim = sim
                 ss._label = "message"
                 object.__setattr__(self_, "_message_callbacks", ss)
+            else:
+                # not an attribute of the instance: a container on the class is SHARED by all connections, and stays so
+                cls_ = type(self_)
+                shared = cls_.__dict__.get("_message_callbacks")
+                if type(shared) is set:
+                    ss = SimSet(shared)
+                    ss._sim = sim
+                    ss._label = "message"
+                    patched._set(cls_, "_message_callbacks", ss)
 
         self._set(ynca.connection.YncaConnection, "__init__", conn_init2)
 
